@@ -20,6 +20,18 @@ def corpus_workspaces():
     c2 = PyFile(); c2.fixture("foo", params=("foo",), ret="int"); ws.add("a/conftest.py", c2)
     tf = PyFile(); tf.fixture("foo", params=("foo", )); tf.test("test_a", params=("foo",)); ws.add("a/test_a.py", tf)
     out.append(ws)
+    # (fixed d2ce617) outgoing calls resolved dependencies with a second implementation of the shadowing rules: the
+    # FIRST of two same-named definitions in a file, no conftest imports, a fallback to the first definition anywhere
+    ws = wsgen.WS()
+    tf = PyFile(); tf.fixture("foo", ret="int"); tf.fixture("foo", ret="str"); tf.fixture("uses_it", params=("foo",))
+    tf.test("test_a", params=("uses_it",)); ws.add("test_use.py", tf)
+    out.append(ws)
+    ws = wsgen.WS()
+    fx = PyFile(); fx.fixture("foo", ret="int"); ws.add("a/fx.py", fx)
+    cf = PyFile(); cf.add("from .fx import *"); cf.fixture("via_import", params=("foo",)); ws.add("a/conftest.py", cf)
+    sib = PyFile(); sib.fixture("foo", ret="str"); ws.add("b/conftest.py", sib)
+    tf = PyFile(); tf.test("test_a", params=("via_import", "foo")); ws.add("a/test_a.py", tf)
+    out.append(ws)
     return out
 
 
